@@ -257,6 +257,7 @@ class Check:
 
     # ---------------------------------------------------------------- logging
     def log(self, *a):
+        self.last_log = ' '.join(str(x) for x in a)[:300]
         print(f'[{self.pid} {time.time() - self.t0:6.1f}s]', *a, flush=True)
 
     def count(self, key, n=1):
@@ -392,8 +393,14 @@ class Check:
         sh(cmd, cwd=self.dir, input=lst, timeout=timeout * (len(shards) // jobs + 1) + 60)
         bad, err = [], None
         for name in shards:
-            out = (self.dir / f'{name}.out').read_text()
+            outp = self.dir / f'{name}.out'
+            out = outp.read_text() if outp.exists() else 'FAIL (no output)'
             m = re.search(r'=\s*\[(.*?)\]\s*:\s*list nat', out, re.S)
+            if 'FAIL' in out or not m:
+                # a shard that timed out or was killed on a loaded machine: once more, alone, with a longer limit
+                rc2, out2 = sh(f'timeout {timeout * 3} coqc -Q {COQ} FpyV -Q . Dyn {name}.v', cwd=self.dir, timeout=timeout * 3 + 30)
+                out = out2 if rc2 == 0 else out + '\n[retry] ' + out2[-300:] + '\nFAIL'
+                m = re.search(r'=\s*\[(.*?)\]\s*:\s*list nat', out, re.S)
             if 'FAIL' in out or not m:
                 err = (err or '') + f'{name}: {out[-500:]}\n'
                 continue
